@@ -3,6 +3,7 @@ package engb
 import (
 	"fmt"
 	"os"
+	"runtime"
 	"strconv"
 	"testing"
 	"time"
@@ -48,6 +49,12 @@ func TestSmokeB(t *testing.T) {
 				}
 			}
 		}
+	}
+	fmt.Println("goroutines left:", runtime.NumGoroutine())
+	if os.Getenv("DUMPG") != "" {
+		buf := make([]byte, 1<<20)
+		n := runtime.Stack(buf, true)
+		fmt.Println(string(buf[:n]))
 	}
 	fmt.Println("nontrivial", nt, "of", n, "in", time.Since(t0), "probes", probes)
 	for k, v := range found {
